@@ -35,9 +35,12 @@ def norm_ops(ops):
 def prepare(runner, r, base, model):
     real = os.path.join(base, "out")
     runner.generate(model, real)
+    ro = r.random() < 0.4
     for rel, data in sorted(e2e.snapshot(real).items()):
         dups = genlib.duplicate_tags(data.decode("utf-8", "surrogateescape"))
         genlib.edit_file(r, os.path.join(real, rel), fraction=0.6, skip=dups)
+        if ro and r.random() < 0.6:
+            os.chmod(os.path.join(real, rel), 0o444)      # sources checked out read-only: still replaced by rename, never removed first
     return real
 
 
